@@ -99,16 +99,15 @@ def field_deepcopy(check):
             bad.append(st.lineno)
     # all paths of the loop over components store: the if/else both store
     loops = [n for n in ast.walk(init.node) if isinstance(n, ast.For)]
-    covered = False
-    for lp in loops:
-        for st in lp.body:
-            if isinstance(st, ast.If):
-                b1 = any(s in stores for s in ast.walk(st) if isinstance(s, ast.Assign) and s in st.body)
-                b2 = any(s in stores for s in ast.walk(st) if isinstance(s, ast.Assign) and s in st.orelse)
-                if b1 and b2:
-                    covered = True
-            if isinstance(st, ast.Assign) and st in stores:
-                covered = True
+    def covers(stmts):
+        """every path through the statements stores the component (nested conditionals: all branches)"""
+        for st in stmts:
+            if isinstance(st, ast.Assign) and any(st is s_ for s_ in stores):
+                return True
+            if isinstance(st, ast.If) and covers(st.body) and covers(st.orelse):
+                return True
+        return False
+    covered = any(covers(lp.body) for lp in loops)
     if bad:
         check.violation("FIELD-DEEPCOPY", init.qualname, "component stored without copying at line(s) %s: fdata.copy() would share arrays with its source" % bad, init.loc(), key="shallow")
     elif not stores or not covered:
